@@ -216,7 +216,9 @@ impl Tzif {
         let result = db.transition_times.binary_search(epoch_seconds);
 
         match result {
-            Ok(idx) => Ok(get_timezone_offset(db, idx - 1)),
+            // An exact match is the transition second itself: the new local time
+            // type (`transition_types[idx]`) is already in force.
+            Ok(idx) => Ok(get_timezone_offset(db, idx)),
             // <https://datatracker.ietf.org/doc/html/rfc8536#section-3.2>
             // If there are no transitions, local time for all timestamps is specified by the TZ
             // string in the footer if present and nonempty; otherwise, it is
@@ -379,7 +381,8 @@ fn resolve_posix_tz_string_for_epoch_seconds(
         TransitionType::Std => end,
     };
     let year = utils::epoch_time_to_epoch_year(seconds * 1000);
-    let year_epoch = utils::epoch_days_for_year(year) * 86400;
+    // NOTE: computed in i64, the product exceeds i32 for years after 2038.
+    let year_epoch = i64::from(utils::epoch_days_for_year(year)) * 86400;
     let leap_day = utils::mathematical_in_leap_year(seconds * 1000) as u16;
 
     let days = match transition.day {
